@@ -41,6 +41,10 @@ class _Canon(ast.NodeTransformer):
                     kws.append(k)
             node.keywords = kws
         fn = ast.unparse(node.func)
+        # range(0, n) -> range(n)
+        if fn in ("range", "prange") and len(node.args) == 2 and isinstance(node.args[0], ast.Constant) and node.args[0].value == 0 and type(node.args[0].value) is int:
+            node.args = [node.args[1]]
+            return node
         if fn in UFUNC_OPS and len(node.args) == 2 and not node.keywords:
             return ast.copy_location(ast.BinOp(node.args[0], UFUNC_OPS[fn](), node.args[1]), node)
         if fn == "np.negative" and len(node.args) == 1 and not node.keywords:
@@ -55,6 +59,24 @@ class _Canon(ast.NodeTransformer):
         if fn == "np.full" and len(node.args) == 2 and isinstance(node.args[1], ast.Constant) and type(node.args[1].value) in (int, float) and node.args[1].value == 0 \
                 and all(k.arg == "dtype" for k in node.keywords) and node.keywords:
             return ast.copy_location(ast.Call(ast.Attribute(ast.Name("np", ast.Load()), "zeros", ast.Load()), [node.args[0]], node.keywords), node)
+        return node
+
+
+class _PairLoops(ast.NodeTransformer):
+    """for a, b in combinations(range(N), 2): body   ->   for a in range(N - 1): for b in range(a + 1, N): body     (same pairs, same order)"""
+
+    def visit_For(self, node):
+        self.generic_visit(node)
+        it = node.iter
+        if (isinstance(it, ast.Call) and ast.unparse(it.func) in ("combinations", "itertools.combinations") and len(it.args) == 2 and not it.keywords
+                and isinstance(it.args[1], ast.Constant) and it.args[1].value == 2 and isinstance(it.args[0], ast.Call) and ast.unparse(it.args[0].func) == "range"
+                and len(it.args[0].args) == 1 and isinstance(node.target, ast.Tuple) and len(node.target.elts) == 2 and all(isinstance(x, ast.Name) for x in node.target.elts)
+                and not node.orelse and not any(isinstance(x, (ast.Break,)) for x in ast.walk(node))):
+            n_ = it.args[0].args[0]
+            a, b = node.target.elts
+            inner = ast.For(ast.Name(b.id, ast.Store()), ast.Call(ast.Name("range", ast.Load()), [ast.BinOp(ast.Name(a.id, ast.Load()), ast.Add(), ast.Constant(1)), copy.deepcopy(n_)], []), node.body, [])
+            outer = ast.For(ast.Name(a.id, ast.Store()), ast.Call(ast.Name("range", ast.Load()), [ast.BinOp(copy.deepcopy(n_), ast.Sub(), ast.Constant(1))], []), [inner], [])
+            return ast.fix_missing_locations(ast.copy_location(outer, node))
         return node
 
 
@@ -228,6 +250,7 @@ def canon_tree(tree, cython=False):
     from .guided import NNF
 
     _NoOpElse().visit(tree)
+    _PairLoops().visit(tree)
     if cython:
         _AugForm().visit(tree)
     _Canon().visit(tree)
@@ -918,6 +941,45 @@ def restore_call_shapes(fn, frozen_calls, sigs):
     return changed
 
 
+def restore_renamed_functions(tree, known, texts):
+    """A known module-level function / method that has vanished while exactly one NEW function in the same scope has its body and
+    parameters is that function under a new name: the old name is restored at the definition and at every reference in the module.
+    Returns [(new name, old name)]."""
+    ft = function_table(tree)
+    gone = [q for q in known if q not in ft and ".<locals>." not in q and q in texts]
+    new = [q for q in ft if q not in known and ".<locals>." not in q]
+    out = []
+    for q in gone:
+        scope = q.rsplit(".", 1)[0] if "." in q else ""
+        want = guided.signature(texts[q])
+        want_args = texts[q].splitlines()[0].split("(", 1)[1] if "(" in texts[q].splitlines()[0] else None
+        cands = []
+        for c in new:
+            if (c.rsplit(".", 1)[0] if "." in c else "") != scope:
+                continue
+            txt = guided.signature_text(ft[c])
+            # recursion: the candidate calls itself under its new name
+            txt_body = txt.replace(c.split(".")[-1] + "(", q.split(".")[-1] + "(")
+            args = txt.splitlines()[0].split("(", 1)[1]
+            if guided.signature(txt_body) == want and args == want_args:
+                cands.append(c)
+        if len(cands) != 1:
+            continue
+        c = cands[0]
+        old_nm, new_nm = q.split(".")[-1], c.split(".")[-1]
+        if any(isinstance(n, (ast.Name, ast.Attribute)) and (getattr(n, "id", None) == old_nm or getattr(n, "attr", None) == old_nm) for n in ast.walk(tree)):
+            continue  # the old name is still used for something else
+        ft[c].name = old_nm
+        for n in ast.walk(tree):
+            if isinstance(n, ast.Name) and n.id == new_nm:
+                n.id = old_nm
+            elif isinstance(n, ast.Attribute) and n.attr == new_nm and scope:
+                n.attr = old_nm
+        new.remove(c)
+        out.append((c, q))
+    return out
+
+
 def normalise(rel, tree, frozen, pure=frozenset(), sigs=None, multi=frozenset()):
     """In-place normalisation of one module's AST.  Returns a dict describing what was done."""
     info = {"inlined_locals": [], "inlined_helpers": False}
@@ -925,8 +987,11 @@ def normalise(rel, tree, frozen, pure=frozenset(), sigs=None, multi=frozenset())
     if frozen is None or rel not in frozen:
         return info
     known = frozen[rel]["functions"]
-    info["inlined_helpers"] = inline_new_helpers(tree, set(known), rel, multi)
     texts = frozen[rel].get("text", {})
+    ren = restore_renamed_functions(tree, known, texts)
+    if ren:
+        info["renamed_functions"] = ren
+    info["inlined_helpers"] = inline_new_helpers(tree, set(known), rel, multi)
 
     def guided_pass(tag):
         ft_ = function_table(tree)
